@@ -205,6 +205,9 @@ type pendingReq struct {
 	cuts     []int
 	term     uint64
 	src      uint64
+	lastIdx  uint64 // append: index of the last entry carried (prevLogIndex+numEntries)
+	nEntries uint64
+	canon    string // canonical content (independent of the byte order of encoded configurations)
 }
 
 // peekRequest parses (without consuming) the first request in flight on c.
@@ -254,6 +257,7 @@ func parseRequest(b []byte) *pendingReq {
 	case *appendReq:
 		p.desc = fmt.Sprintf("append{t:%d src:%d prev:%d/%d commit:%d n:%d", req.term, req.src, req.prevLogIndex, req.prevLogTerm, req.ldrCommitIndex, req.numEntries)
 		p.cuts = append(p.cuts, hdr)
+		p.lastIdx, p.nEntries = req.prevLogIndex+req.numEntries, req.numEntries
 		for i := uint64(0); i < req.numEntries; i++ {
 			e := &entry{}
 			before := rd.Len()
@@ -262,6 +266,7 @@ func parseRequest(b []byte) *pendingReq {
 				return p
 			}
 			p.desc += fmt.Sprintf(" %d/%d/%d", e.index, e.term, e.typ)
+			p.canon += fmt.Sprintf("|%d:%v", e.index, recOf(e))
 			_ = before
 			if i+1 < req.numEntries {
 				p.cuts = append(p.cuts, len(b)-rd.Len())
@@ -275,9 +280,12 @@ func parseRequest(b []byte) *pendingReq {
 			p.desc += "(partial)"
 			return p
 		}
-		_, _ = rd.Seek(req.size, io.SeekCurrent)
+		data := make([]byte, req.size)
+		_, _ = io.ReadFull(rd, data)
+		p.canon = fmt.Sprintf("|cfg{%s}|data%s", canonConfig(req.lastConfig), hashBytes(data))
 	}
 	p.size = len(b) - rd.Len()
 	p.complete = true
+	p.canon = p.desc + p.canon
 	return p
 }
